@@ -22,6 +22,14 @@ import (
 
 const VerifDir = "/verif"
 
+// outDir is where evidence and replays go: /verif, unless the development aid VERIF_OUT (see cmd/vdriver) is set.
+func outDir() string {
+	if o := os.Getenv("VERIF_OUT"); o != "" && os.Getenv("VERIF_REPO") != "" {
+		return o
+	}
+	return VerifDir
+}
+
 // Violation is one property violation with everything needed to replay it.
 type Violation struct {
 	Property string         `json:"property"`
@@ -437,7 +445,7 @@ func Finalize(ps []Partial) int {
 	exit := 0
 	nviol := 0
 	var lines []string
-	os.MkdirAll(filepath.Join(VerifDir, "replays"), 0o755)
+	os.MkdirAll(filepath.Join(outDir(), "replays"), 0o755)
 	for _, v := range m.Violations {
 		if k := isKnown(v); k != nil {
 			lines = append(lines, fmt.Sprintf("KNOWN-FINDING: property=%s %s", v.Property, k.What))
@@ -446,7 +454,7 @@ func Finalize(ps []Partial) int {
 		nviol++
 		b, _ := json.MarshalIndent(v, "", " ")
 		sum := sha256.Sum256([]byte(v.Key))
-		path := filepath.Join(VerifDir, "replays", fmt.Sprintf("%s-%s.json", m.ID, hex.EncodeToString(sum[:4])))
+		path := filepath.Join(outDir(), "replays", fmt.Sprintf("%s-%s.json", m.ID, hex.EncodeToString(sum[:4])))
 		os.WriteFile(path, b, 0o644)
 		lines = append(lines, fmt.Sprintf("VIOLATION property=%s replay=%s", m.ID, path))
 		exit = 1
@@ -485,8 +493,8 @@ func Finalize(ps []Partial) int {
 		"coverage": cov, "assumptions": m.Assumptions, "wall_s": m.WallS, "violations": nviol,
 	}
 	b, _ := json.MarshalIndent(ev, "", " ")
-	os.MkdirAll(filepath.Join(VerifDir, "evidence"), 0o755)
-	if err := os.WriteFile(filepath.Join(VerifDir, "evidence", m.ID+".json"), b, 0o644); err != nil {
+	os.MkdirAll(filepath.Join(outDir(), "evidence"), 0o755)
+	if err := os.WriteFile(filepath.Join(outDir(), "evidence", m.ID+".json"), b, 0o644); err != nil {
 		fmt.Fprintln(os.Stderr, "cannot write evidence:", err)
 		return 2
 	}
